@@ -723,8 +723,9 @@ impl TransactionBuilder {
                         let not_exceed_max = new < max;
                         if move_closer && not_exceed_max {
                             std::mem::swap(i, j);
-                            available_indices.insert(*i);
-                            available_indices.remove(j);
+                            // *i is now the chosen index, *j the released one
+                            available_indices.remove(i);
+                            available_indices.insert(*j);
                         }
                     }
                 }
